@@ -4,6 +4,7 @@ use std::fmt::Write as _;
 
 pub mod c01;
 pub mod c17;
+pub mod c19;
 pub mod c20;
 pub mod common;
 pub mod profiles;
